@@ -47,6 +47,10 @@ def run(ctx):
     c01.r01_1(ctx, rep, roles, snd)
     ctx.report.rules[-1].id = "R14.4(R01.1)"
     r14_5(ctx, rep, adm)
+    # a SetMaxVersion after a refused key-value makes the receiver adopt a frontier the delta does not carry (seed R3-C14-1)
+    from . import c07
+    c07.r07_4(ctx, rep, roles, snd)
+    ctx.report.rules[-1].id = "R14.6(R07.4)"
 
 
 # ------------------------------------------------------------------------- R14.1
